@@ -23,7 +23,9 @@ type Imports struct {
 }
 
 func (i *Import) String() string {
-	if strings.HasSuffix(i.Path, i.Alias) {
+	// the alias can be left out when it is the last element of the path, not whenever the path
+	// merely ends with the same letters (s "strings" must keep its alias)
+	if i.Path == i.Alias || strings.HasSuffix(i.Path, "/"+i.Alias) {
 		return strconv.Quote(i.Path)
 	}
 
